@@ -298,7 +298,11 @@ Verdict execute(const Plan& plan, EventLog& log, Stats& st)
       }
       // (the a priori m0 scales the project equations: once approximate coordinates were moved by corrections computed
       //  under the old scale, "given before the first adjustment" would be another input at round-off level)
-      if (w == 3) { bool moved = false; for (auto& c0 : O.changes) if (c0 == "refine" || c0 == "refcoord") moved = true; if (moved) { n++; continue; } }
+      // (nor after an edit: the adjustment that follows an edit decides which points it removes as singular, a numerical
+      //  test that depends on the a priori m0 in force - seen with a prefix of observations switched off at m0 = 10 (two
+      //  unknowns removed) against m0 = 5 (kept) - and never takes the removal back; "edit under the old m0, then the
+      //  new m0" and "new m0, then the edit" are different inputs, like an edit after a switch of the algorithm)
+      if (w == 3) { bool moved = false; for (auto& c0 : O.changes) if (c0 == "refine" || c0 == "refcoord" || is_edit(c0)) moved = true; if (moved) { n++; continue; } }
       std::string c = w == 0 ? "par:a" : w == 1 ? "par:p" : w == 2 ? fmt("par:c%d", (int)(s.arg(2) % 4)) : fmt("par:s%d", (int)(s.arg(2) % 4));
       apply_change(net, c); O.changes.push_back(c);
       log.line("%d o%lld %s", n, s.arg(0) % nobj, c.c_str()); st.add("ops.parameter"); st.nontrivial = true; st.shape += "net:" + c + ",";
@@ -308,7 +312,7 @@ Verdict execute(const Plan& plan, EventLog& log, Stats& st)
       // (nor after a switch to another algorithm: the reference takes the observation out before its FIRST adjustment,
       // which runs under the initial algorithm, and which points an adjustment removes as singular or indeterminable
       // is decided numerically by the algorithm in force - after a switch the two orders are different inputs)
-      bool moved = false; for (auto& c0 : O.changes) if (c0 == "refine" || c0 == "refcoord" || (c0.compare(0, 4, "alg:") == 0 && c0.substr(4) != O.alg0)) moved = true;
+      bool moved = false; for (auto& c0 : O.changes) if (c0 == "refine" || c0 == "refcoord" || c0.compare(0, 5, "par:s") == 0 || (c0.compare(0, 4, "alg:") == 0 && c0.substr(4) != O.alg0)) moved = true;
       if ((w == 5 || w == 6) && moved) { n++; continue; }
       std::string c = w == 6 ? fmt("fixpt:%lld", s.arg(2) % 1000) : w == 5 ? fmt("passive:%lld", s.arg(2) % 1006) : w == 0 ? "refine" : w == 1 ? "refcoord" : w == 2 ? "alg:" + (O.changes.empty() ? O.alg0 : O.alg0) : w == 3 ? std::string("alg:") + ALGS[s.arg(2) % 4] : "alg:" + O.alg0;
       Val r = guarded([&](Val&) { apply_change(net, c); });
